@@ -22,7 +22,7 @@ FixRes(r) == [class    |-> r.class,
               attrs    |-> Range(r.attrs),
               ctor     |-> [ok |-> r.ctor.ok, params |-> Range(r.ctor.params)],
               methods  |-> {FixM(r.methods[i]) : i \in DOMAIN r.methods}]
-FixHeap(h) == [i \in DOMAIN h |-> [via |-> h[i].via, set |-> Range(h[i].set)]]
+FixHeap(h) == [i \in DOMAIN h |-> [via |-> h[i].via, set |-> Range(h[i].set), dyn |-> Range(h[i].dyn)]]
 
 TraceInit ==
     /\ tid \in 1..Len(Traces)
@@ -34,7 +34,13 @@ Ev == Traces[tid].events[l]
 Step(e) ==
     CASE e.op = "NewConfig" -> NewConfig(e.via)
       [] e.op = "Touch"     -> Touch(e.c, e.k)
-      [] e.op = "GenStub"   -> GenStub(e.target, e.c)
+      [] e.op = "AddDyn"    -> AddDyn(e.c, e.k)
+         \* the run-time fields the logged stub declares select the instance of GenStub
+      [] e.op = "GenStub"   -> IF e.out = "ok"
+                               THEN GenStubWith(e.target, e.c,
+                                                Range(e.res.attrs) \cap FreeKeys(e.target, e.c),
+                                                Range(e.res.ctor.params) \cap FreeKeys(e.target, e.c))
+                               ELSE GenStubWith(e.target, e.c, {}, {})
 
 TraceNext ==
     /\ l <= Len(Traces[tid].events)
@@ -47,12 +53,14 @@ IsGen(e) == e.op = "GenStub"
 \* logged observations that differ from the specification's step
 BadObs ==
     LET e == Ev IN
-    {n \in {"wf", "out", "res", "heap", "stdout"} :
+    {n \in {"wf", "out", "res", "heap", "stdout", "skeys", "fresh"} :
         CASE n = "wf"     -> ~SchemaWF(schema)
           [] n = "out"    -> ev'.out # e.out
           [] n = "res"    -> IsGen(e) /\ e.out = "ok" /\ FixRes(e.res) # ev'.res
           [] n = "heap"   -> heap' # FixHeap(e.heap)
-          [] n = "stdout" -> stdout' # e.stdout}
+          [] n = "stdout" -> stdout' # e.stdout
+          [] n = "skeys"  -> e.skeys # KeySeq(schema)
+          [] n = "fresh"  -> e.fresh # KeySeq(schema)}
 
 \* the property's own predicates on the observed result / states.  (The specification's current
 \* state equals the previously logged one: a trace is only followed while bo = {}.)
@@ -60,8 +68,10 @@ BadInv ==
     LET e == Ev IN
     {n \in {"C20_Valid", "C20_Complete", "C20_NoSideEffect", "C20_Quiet"} :
         CASE n = "C20_Valid"        -> IsGen(e) /\ ~(e.out = "ok" /\ P_Valid(FixRes(e.res)))
-          [] n = "C20_Complete"     -> IsGen(e) /\ e.out = "ok" /\ ~P_Complete(schema, FixRes(e.res))
-          [] n = "C20_NoSideEffect" -> IsGen(e) /\ ~P_NoSideEffect(heap, FixHeap(e.heap), stdout, e.stdout, e.extra)
+          [] n = "C20_Complete"     -> IsGen(e) /\ e.out = "ok"
+                                       /\ ~P_Complete(schema, FixRes(e.res), FreeKeys(e.target, e.c))
+          [] n = "C20_NoSideEffect" -> IsGen(e) /\ ~P_NoSideEffect(heap, FixHeap(e.heap), stdout, e.stdout,
+                                                                    KeySeq(schema), e.skeys, e.fresh, e.extra)
           [] n = "C20_Quiet"        -> e.stdout # <<>>}
 
 Report ==
